@@ -19,7 +19,7 @@ EXPLANATION = (
     "[0] on 0x700+id exactly under `_state == 0`; R4 the state setter reaches send_command on every normal path "
     "and rejects names outside NMT_COMMANDS before it; R5 heartbeat decoding uses only the 0x7F-masked byte, "
     "0 maps to PRE-OPERATIONAL (127); R6 condition-variable protocol of on_heartbeat / wait_for_heartbeat / "
-    "wait_for_bootup and NmtError on the silent path."
+    "wait_for_bootup and NmtError on the silent path. R8 no class-level mutable object is mutated in place by instances (each node/client/map/dictionary has its own state)."
 )
 ASSUMPTIONS = [
     "not decided: agreement of master and slave views after every prefix of a command history (runtime), thread timing",
@@ -189,6 +189,10 @@ def run(chk):
     _heartbeat(chk, repo, folder, sc)
     # R6 waits
     _waits(chk, repo, folder, sc)
+
+    # ------------------------------------------------------------------ R8 instances are independent (shared clause)
+    from . import shared as _shared
+    _shared.isolation(chk, "R8", rels=['canopen/nmt.py'])
 
 
 def _heartbeat(chk, repo, folder, sc):
